@@ -456,6 +456,8 @@ func (s *Store[H]) setHead(ctx context.Context, write datastore.Write, to uint64
 
 	// update the contiguous head
 	s.contiguousHead.Store(&newHead)
+	// and the published height, which otherwise only moves forward
+	s.heightSub.Init(newHead.Height())
 	if err := writeHeaderHashTo(ctx, write, newHead, headKey); err != nil {
 		return fmt.Errorf("writing headKey in batch: %w", err)
 	}
